@@ -175,7 +175,34 @@ def case_profiles_single(ctx):
         goal = z3.And(z(C.re) > z(lo), z(C.re) < z(hi))
         ctx.prove("%s(single layer) = C*r0/h with 0.313 < C < 0.315" % name, pre, goal, timeout_ms=120000,
                   replay=lambda m, name=name: _replay_single(name, m(c), m(h), m(lam)), witness_terms=dict(c=c, h=h, lam=lam))
+    # a single layer handed over as 0-d arrays (any rank): the same numbers as the length-1 profile
+    for name in ("isoplanaticAngle", "coherenceTime", "rytov_variance"):
+        f = getattr(ac, name)
+        ctx.encoded(f)
+        try:
+            with npx.symbolic(ac):
+                one = f(core.obj(numpy.array([c], dtype=object)), core.obj(numpy.array([h], dtype=object)), lam)
+                zero_d = f(core.obj(numpy.array(c, dtype=object)), core.obj(numpy.array(h, dtype=object)), lam)
+        except Exception as e:
+            if harness._encoding_limit(e):
+                raise
+            ctx.assume("%s rejects 0-d profiles (%s): not examined" % (name, type(e).__name__))
+            continue
+        ctx.prove("%s: a 0-d single layer gives the same number as the length-1 profile" % name, pre, conj(eqs(zero_d, one)), timeout_ms=60000,
+                  replay=lambda m, name=name: _replay_zero_d(name, m(c), m(h), m(lam)), witness_terms=dict(c=c, h=h, lam=lam))
     ctx.paths += 1
+
+
+def _replay_zero_d(name, c, h, lam):
+    ac, _ = _mods()
+    f = getattr(ac, name)
+    c, h, lam = abs(float(c)) or 1e-13, abs(float(h)) or 5000.0, abs(float(lam)) or 5e-7
+    a = float(f(numpy.array([c]), numpy.array([h]), lam))
+    try:
+        b = float(f(numpy.array(c), numpy.array(h), lam))
+    except Exception:
+        return False, dict(what="0-d profiles are rejected")
+    return not numpy.isclose(a, b, rtol=1e-9), dict(what="%s: 0-d single layer %r, length-1 profile %r" % (name, b, a), c=c, h=h, lam=lam)
 
 
 def _replay_single(name, c, h, lam):
